@@ -22,6 +22,9 @@ Definition run_consts (_ : val) : val :=
        VB (enc_v2hdr (with_data_padding 5 (new_header 9)));  (* header bytes as WriteTo emits them *)
        VB (ld (enc_header (Some []) 1));   (* WriteHeader of an empty (non-nil) root list *)
        VN (uv_size 127); VN (uv_size 128); VN (uv_size 16384); (* varint.UvarintSize *)
-       VN codec_insertion                  (* InsertionIndex.Codec = 0x300003 *)
+       VN codec_insertion;                 (* InsertionIndex.Codec = 0x300003 *)
+       VB (enc_v2hdr (set_fully_indexed true (new_header 9)));   (* Characteristics.SetFullyIndexed(true), header bytes *)
+       VN (if is_fully_indexed (set_fully_indexed true (new_header 9)) then 1 else 0);                              (* IsFullyIndexed after it *)
+       VN (if is_fully_indexed (set_fully_indexed false (set_fully_indexed true (new_header 9))) then 1 else 0)     (* and after SetFullyIndexed(false) *)
      ].
 Definition prop_consts (_ _ : val) : val := VT "ok".
